@@ -126,8 +126,74 @@ def history(rng, msgs, via_tlv, dup, unknown, label='mix'):
     return cases
 
 
+def id_shapes_history(rng, kind):
+    """unsegmented messages accepted under ids of particular shapes, then receipts (some twice, some for unknown ids):
+    kind 'numeric-hex'  ids that are the decimal and the hexadecimal notation of one number ('10' and 'A', '255' and 'FF'),
+         'echo'         receipts spelling the last field 'Text:' (SMPP appendix B) whose echoed text contains 'id:<other id>',
+         'prefix'       ids one of which is a prefix / zero-padded form of another ('7', '07', '007', '70')"""
+    sim = CorrSim(ttl_resp_q=15 * Q, ttl_deliv_q=10 ** 7)
+    cases = [Case(sim.first_line, 'ok', None)]
+    fail = None
+    try:
+        if kind == 'numeric-hex':
+            n = rng.choice((10, 11, 15, 171, 255, 4096 + rng.randrange(4096)))
+            ids = [str(n), '%X' % n, '%x' % (n + 1), str(n + 1)]
+        elif kind == 'prefix':
+            ids = ['7', '07', '007', '70']
+        else:
+            ids = ['41', '7788', 'abc', 'ZZ9']
+        rng.shuffle(ids)
+        ids = ids[:rng.randrange(2, 5)]
+        t = 100
+        for i, mid in enumerate(ids):
+            t += 1
+            ln, out = sim.op_put(t, sim.submit(i + 1, 60 + i, 1060 + i))
+            cases.append(Case(ln, out, None))
+            t += 1
+            ln, out, _ = sim.op_hresp(t, sim.resp('submitresp', i + 1, 0, mid))
+            cases.append(Case(ln, out, None))
+        order = list(range(len(ids)))
+        rng.shuffle(order)
+        plan = []
+        for i in order:
+            plan.append(('rcpt', i))
+            if rng.random() < 0.5:
+                plan.append(('rcpt', i))            # the same receipt again: must not find anything
+        plan.insert(rng.randrange(len(plan) + 1), ('unknown', None))
+        got = {}
+        dseq = 9000
+        done = set()
+        for what, i in plan:
+            t += 1
+            dseq += 1
+            if what == 'unknown':
+                d = sim.deliver(dseq, 'x', receipt=('nosuch%d' % dseq, 0))
+                want_log = ''
+            else:
+                other = ids[(i + 1) % len(ids)]
+                if kind == 'echo':
+                    d = sim.deliver(dseq, 'Order id:%s shipped id:%s' % (other, other), receipt=(ids[i], 0), text_name='Text')
+                else:
+                    d = sim.deliver(dseq, 'x', receipt=(ids[i], 0), text_name=rng.choice(('text', 'Text')))
+                want_log = '' if i in done else 'L%d' % (60 + i)
+                done.add(i)
+            ln, out, res = sim.op_hdel(t, d)
+            cases.append(Case(ln, out, None))
+            have = getattr(res, 'log_id', '') if res is not None and res is not sim.em._SUBMIT_SM_SEGMENT else None
+            if fail is None and have != want_log:
+                fail = 'receipt naming id %r handed over with log_id %r, expected %r (ids in play: %s)' % (
+                    ids[i] if i is not None else 'nosuch', have, want_log, ids)
+        ln, out = sim.op_dump()
+        cases.append(Case(ln, out, ('id-shapes', kind, len(ids)), fail, {'op': 'history', 'label': 'ids-' + kind, 'lines': [c.line for c in cases[1:]]}))
+    finally:
+        sim.close()
+    return cases
+
+
 def generate(rng, tier):
     thorough = tier == 'thorough'
+    for _ in range(120 if thorough else 40):
+        yield from id_shapes_history(rng, rng.choice(('numeric-hex', 'numeric-hex', 'echo', 'prefix')))
     for _ in range(1200 if thorough else 350):
         n = rng.randrange(1, 4)
         refs = rng.sample(range(256), n)
